@@ -29,6 +29,8 @@ SRC = ["src/pynguin/instrumentation/version/python3_10.py", "src/pynguin/instrum
 JUMPS = {"POP_JUMP_IF_TRUE": "C03.JT", "POP_JUMP_IF_FALSE": "C03.JF", "POP_JUMP_IF_NONE": "C03.JN",
          "POP_JUMP_IF_NOT_NONE": "C03.JNN"}
 COND_OPS = set(JUMPS) | {"FOR_ITER"}
+OPERATOR_METHODS = {"__eq__", "__ne__", "__lt__", "__le__", "__gt__", "__ge__", "__contains__", "__bool__", "__len__",
+                    "<genexpr>", "<listcomp>"}
 
 
 def extract_cfg(sp, coid, d):
@@ -276,6 +278,11 @@ def _work(job):
             v = lbl if jumped else (not lbl)
             pid = pid_of.get((key2co[key], bi))
             taken.add((pid if pid is not None else f"unregistered:{key}:{bi}", bool(v)))
+        entered = {key2co[key] for key in truth.get("starts", []) if key in key2co}
+        rep_co = set(trace.executed_code_objects)
+        missing_cos = entered - rep_co
+        if not all(sp.existing_code_objects[c].code_object.co_name in OPERATOR_METHODS for c in missing_cos):
+            missing_cos = set()
         # the goal level: the real BranchGoal.is_covered on the real execution result
         result = _types.SimpleNamespace(execution_trace=trace)
         reported = {(pid, v) for pid, v, g in goals if g.is_covered(result)}
@@ -287,13 +294,18 @@ def _work(job):
                                  for p, _v in taken - reported):
                 # the tracer deliberately does not evaluate `x in <one-shot iterator>` (it would consume it)
                 kind = "taken-not-reported:membership-unobserved"
+            if (not extra and exc is not None and missing_cos
+                    and all(isinstance(p, int) and sp.existing_predicates[p].code_object_id in missing_cos for p, _v in taken - reported)):
+                # the comparison raised while the TRACER evaluated it (tracing disabled), so the subject never
+                # evaluated it itself and the operator method's body was not traced
+                kind = "taken-not-reported:operator-raised-in-tracer"
             dist = {p: (trace.true_distances.get(p), trace.false_distances.get(p)) for p, _v in (reported ^ taken) if isinstance(p, int)}
             res["fails"].append([f"branches:{kind}", f"execution {k}: goals covered but outcome not taken {extra}; taken but goal not "
                                  f"covered {missing}; (true, false) distances {dist}", kk])
-        entered = {key2co[key] for key in truth.get("starts", []) if key in key2co}
-        rep_co = set(trace.executed_code_objects)
         if entered != rep_co:
-            res["fails"].append(["code-objects:" + ("reported-not-entered" if rep_co - entered else "entered-not-reported"),
+            res["fails"].append(["code-objects:" + ("reported-not-entered" if rep_co - entered else
+                                                    "entered-not-reported:operator-raised-in-tracer" if exc is not None and missing_cos
+                                                    else "entered-not-reported"),
                                  f"entered {sorted(entered)} reported {sorted(rep_co)} (branch-less: {sorted(branchless)})", kk])
         elif {c for c, g in bl_goals if g.is_covered(result)} != entered & branchless:
             res["fails"].append(["code-objects:branchless-goal", f"branch-less goals covered differ from branch-less code objects entered {sorted(entered & branchless)}", kk])
